@@ -51,6 +51,33 @@ def _eliminate_early_returns(stmts):
     return out
 
 
+def _eliminate_returns_deep(stmts, cont=()):
+    """`stmts` followed by `cont`, with every bare `return` (at any depth of nested ifs) turned into "skip what follows": the
+    continuation is copied into the branches that fall through.  None when a return sits inside a loop/try/with (not handled)."""
+    if not stmts:
+        return [copy.deepcopy(c) for c in cont]
+    s, rest = stmts[0], list(stmts[1:])
+    if _is_bare_return(s):
+        return []
+    has_ret = any(isinstance(n, ast.Return) for n in ast.walk(s))
+    if not has_ret:
+        tail = _eliminate_returns_deep(rest, cont)
+        return None if tail is None else [s] + tail
+    if isinstance(s, ast.If):
+        tail = _eliminate_returns_deep(rest, cont)
+        if tail is None:
+            return None
+        b = _eliminate_returns_deep(list(s.body), tail)
+        o = _eliminate_returns_deep(list(s.orelse), tail)
+        if b is None or o is None:
+            return None
+        new = copy.copy(s)
+        new.body = b or [ast.copy_location(ast.Pass(), s)]
+        new.orelse = o
+        return [new]
+    return None
+
+
 def _simple_body(fn, want_expr=False):
     """('none'|'value', body_without_return, return_expr) or None."""
     body = list(fn.body)
@@ -58,6 +85,10 @@ def _simple_body(fn, want_expr=False):
         body = body[1:]
     if all(_is_bare_return(n) for n in ast.walk(fn) if isinstance(n, ast.Return)):
         body = _eliminate_early_returns(body)
+        if any(isinstance(n, ast.Return) for st in body for n in ast.walk(st)):
+            deep = _eliminate_returns_deep(body)          # returns nested deeper than one `if`
+            if deep is not None:
+                body = deep or [ast.Pass()]
         if not any(isinstance(n, ast.Return) for st in body for n in ast.walk(st)):
             for n in ast.walk(fn):
                 if isinstance(n, (ast.Yield, ast.YieldFrom, ast.Await, ast.Global, ast.Nonlocal, ast.Lambda)):
@@ -662,6 +693,26 @@ def _split_simple_statements(stmts):
     return out
 
 
+_MODULE_STABLE = set()
+
+
+def _module_stable_names(tree):
+    cnt = {}
+    for n in tree.body:
+        names = []
+        if isinstance(n, (ast.Import, ast.ImportFrom)):
+            names = [(a.asname or a.name).split(".")[0] for a in n.names]
+        elif isinstance(n, (ast.FunctionDef, ast.ClassDef)):
+            names = [n.name]
+        elif isinstance(n, ast.Assign):
+            names = [t.id for t in n.targets if isinstance(t, ast.Name)]
+            for nm in names:
+                cnt[nm] = cnt.get(nm, 0) + 1        # a module-level variable: counted twice so that it is never taken as stable
+        for nm in names:
+            cnt[nm] = cnt.get(nm, 0) + 1
+    return {nm for nm, c in cnt.items() if c == 1}
+
+
 def _copyable(v, stable, stored_attrs, line=None):
     """Name / attribute chain on a never-rebound name / constant: an expression whose value cannot change between the temporary's
     definition and its uses inside this function (the function stores to that attribute nowhere, or only in straight-line code
@@ -717,6 +768,9 @@ def _propagate_copies(fn):
         return 0
     params = {a.arg for a in fn.args.args + fn.args.kwonlyargs + fn.args.posonlyargs}
     stable = {p for p in params if p not in stored}
+    # names the module binds once by import / def / class (np, types, a kernel, a sketch class): stable inside every function that
+    # does not rebind them -- `dtype = np.uint16` is a name for np.uint16
+    stable |= {n_ for n_ in _MODULE_STABLE if n_ not in stored and n_ not in params}
     env = {}
     dict_env = {}        # single-use dict displays, expanded where they are splatted as **name
     uses = _name_uses(fn)
@@ -861,12 +915,23 @@ def _module_const_tuples(tree):
     for n in ast.walk(tree):
         if isinstance(n, ast.Name) and isinstance(n.ctx, (ast.Store, ast.Del)):
             stores[n.id] = stores.get(n.id, 0) + 1
+    def const_elts(v):
+        """elements of a constant tuple expression: a display of literals, an earlier constant table, or a concatenation of those"""
+        if isinstance(v, (ast.Tuple, ast.List)) and v.elts and all(isinstance(e, ast.Constant) and isinstance(e.value, (str, int)) for e in v.elts):
+            return list(v.elts)
+        if isinstance(v, ast.Name) and v.id in out:
+            return list(out[v.id])
+        if isinstance(v, ast.BinOp) and isinstance(v.op, ast.Add):
+            a, b = const_elts(v.left), const_elts(v.right)
+            if a is not None and b is not None and isinstance(v.left, (ast.Tuple, ast.Name, ast.BinOp)) and isinstance(v.right, (ast.Tuple, ast.Name, ast.BinOp)):
+                return a + b
+        return None
     for n in tree.body:
-        if isinstance(n, ast.Assign) and len(n.targets) == 1 and isinstance(n.targets[0], ast.Name) and isinstance(n.value, (ast.Tuple, ast.List)) \
-                and n.value.elts and all(isinstance(e, ast.Constant) and isinstance(e.value, (str, int)) for e in n.value.elts):
+        if isinstance(n, ast.Assign) and len(n.targets) == 1 and isinstance(n.targets[0], ast.Name):
             name = n.targets[0].id
-            if stores.get(name) == 1:
-                out[name] = list(n.value.elts)
+            ce = const_elts(n.value)
+            if ce is not None and stores.get(name) == 1:
+                out[name] = ce
     # a mutating use (NAME.append, NAME[i] = ...) disqualifies
     for n in ast.walk(tree):
         if isinstance(n, ast.Attribute) and isinstance(n.value, ast.Name) and n.value.id in out and n.attr in ("append", "extend", "insert", "pop", "remove", "sort", "reverse", "clear"):
@@ -932,6 +997,15 @@ def _static_expand(fn, consts):
             return self.comp(n, lambda cs, v: ast.List(elts=[_ConstSubst(v, c).visit(copy.deepcopy(n.elt)) for c in cs], ctx=ast.Load()))
 
         def visit_Call(self, c):
+            # any(f(x) for x in TABLE) / all(...)  ->  f(a) or f(b) or ...   (same evaluation order, same short circuit, same truth value)
+            if isinstance(c.func, ast.Name) and c.func.id in ("any", "all") and len(c.args) == 1 and not c.keywords \
+                    and isinstance(c.args[0], (ast.GeneratorExp, ast.ListComp)) and len(c.args[0].generators) == 1:
+                g = c.args[0].generators[0]
+                if not g.ifs and not g.is_async and isinstance(g.iter, ast.Name) and g.iter.id in consts and isinstance(g.target, ast.Name) \
+                        and len(consts[g.iter.id]) >= 2 and isinstance(c.args[0], ast.GeneratorExp):
+                    vals = [_ConstSubst(g.target.id, k).visit(copy.deepcopy(c.args[0].elt)) for k in consts[g.iter.id]]
+                    changed[0] += 1
+                    return self.visit(ast.copy_location(ast.BoolOp(op=ast.Or() if c.func.id == "any" else ast.And(), values=vals), c))
             self.generic_visit(c)
             f = c.func
             if isinstance(f, ast.Name) and f.id == "getattr" and len(c.args) == 2 and not c.keywords and isinstance(c.args[1], ast.Constant) \
@@ -1423,6 +1497,8 @@ class _PruneConstantIfs(ast.NodeTransformer):
 
 
 def normalize(tree):
+    _MODULE_STABLE.clear()
+    _MODULE_STABLE.update(_module_stable_names(tree))
     _expand_module_aliases(tree)
     _expand_module_constants(tree)
     _PruneConstantIfs().visit(tree)
